@@ -45,6 +45,7 @@ def default_cfg():
         "stress": False,
         "hash_seed": 0,
         "clock": "mono",
+        "neg_source_rs": False,
     }
 
 
@@ -215,7 +216,9 @@ class Gen:
         if positive is False or (positive is None and self.r.chance(self.cfg["neg_supply"])):
             v = -v
         p = {"vo": v}
-        if self.r.chance(0.6):
+        # negative supplies with series resistance are a separate, rarely
+        # enabled input class (known finding D1, see KNOWN_FINDINGS.json)
+        if self.r.chance(0.6) and (v > 0 or self.cfg.get("neg_source_rs")):
             p["rs"] = self.neg(self.r.pick([0.01, 0.05, 0.1, 0.2, 0.5]))
         return mk("Source", name, p, self.limits_for("Source"))
 
@@ -325,7 +328,8 @@ class Gen:
 
     def rail(self, m, kind):
         if kind in LOADS:
-            return ""
+            # legal: a rail on a load is ignored with a UserWarning
+            return self.fresh_rail(m) if self.r.chance(0.12) else ""
         return self.fresh_rail(m) if self.r.chance(self.cfg["rails"]) else ""
 
     def parent_ref(self, m, n):
@@ -415,7 +419,7 @@ class Gen:
             else:
                 nk = k
             spec = self.comp(nk, m, vn, name=newname)
-        rail = ""
+        rail = self.fresh_rail(m) if self.r.chance(0.12) else ""
         if spec["kind"] not in LOADS:
             rail = self.r.wpick([("", 3), (m.rails.get(n, ""), 2), (self.fresh_rail(m), 2)])
         return {"op": "change_comp", "name": n, "comp": spec, "group": self.group(), "rail": rail}
@@ -452,6 +456,7 @@ class Gen:
             out.append(("rail_is_rail", {"op": "add_comp", "parent": anyp, "comp": c("RLoss"), "group": "", "rail": self.r.pick(rails)}))
             out.append(("del_by_rail", {"op": "del_comp", "name": self.r.pick(rails), "del_childs": self.r.chance(0.5)}))
             out.append(("change_by_rail", {"op": "change_comp", "name": self.r.pick(rails), "comp": c("RLoss"), "group": "", "rail": ""}))
+            out.append(("cphase_by_rail", {"op": "set_comp_phases", "name": self.r.pick(rails), "conf": ["a"]}))
             out.append(("source_rail_in_use", {"op": "add_source", "comp": self.source(m), "group": "", "rail": self.r.pick(rails)}))
         out.append(("rail_is_name", {"op": "add_comp", "parent": anyp, "comp": c("RLoss"), "group": "", "rail": anyn}))
         nm = self.fresh("X", m)
